@@ -406,6 +406,12 @@ def _carry(comm, partial):
     return bytes(partial) + bytes(comm.reader._buffer)        # pylint: disable=protected-access
 
 
+def _consumed(comm, stream):
+    """Cut off the bytes at the end that the port has delivered but MPF's reader task has not fetched yet."""
+    n = len(comm.reader._buffer)            # pylint: disable=protected-access
+    return stream[:len(stream) - n] if n else stream
+
+
 def _split_keep(stream, delim):
     """Cut a byte stream after every delimiter (frame-aligned delivery of the replay run)."""
     out = []
@@ -564,7 +570,7 @@ def _exec_fast_in(ctx, plan):
     assert len(plan["tail"]) >= K_TAIL
     sim.run_quiet(tg * len(plan["tail"]) + 0.6)
 
-    stream = carry + ser.delivered(mark)
+    stream = _consumed(comm, carry + ser.delivered(mark))
     main = _fast_judge(ctx, plan, stream, calls, watch, init, noisy[0], "main")
     _chunk_probes(ctx, ser, mark, b"\r")
 
@@ -1084,7 +1090,7 @@ def _exec_pkone(ctx, plan):
         board.line.send(B.PkoneNano.switch_frame(b, n, st), tg * (i + 1))
     assert len(plan["tail"]) >= K_TAIL
     sim.run_quiet(tg * len(plan["tail"]) + 0.6)
-    stream = carry + ser.delivered(mark)
+    stream = _consumed(comm, carry + ser.delivered(mark))
     main = _pk_judge(ctx, plan, stream, calls, watch, init, "main")
     _chunk_probes(ctx, ser, mark, b"E")
     if plan["diff"]:
@@ -1335,7 +1341,7 @@ def _exec_opp(ctx, plan):
     if board.polls - polls0 < K_TAIL:
         ctx.violation("polling_stopped", "opp", "MPF sent only %d polls in %.2f s after the noise stopped"
                       % (board.polls - polls0, 0.05 * guard))
-    stream = carry + ser.delivered(mark)
+    stream = _consumed(comm, carry + ser.delivered(mark))
     main = _opp_judge(ctx, plan, stream, calls, watch, init, vectors, noisy[0], "main")
     _chunk_probes(ctx, ser, mark, None)
     rx = [d for k, _, d in ser.events[mark:] if k == "rx"]
@@ -1449,7 +1455,9 @@ def _opp_reference_decode(stream):
         if b == 0xff:
             i += 1
             continue
-        if (b & 0xe0) == 0x20 and i + 1 < n:
+        if (b & 0xe0) == 0x20:
+            if i + 1 >= n:
+                break                  # a frame whose first byte only has been consumed so far
             ln = 7 if stream[i + 1] == 0x08 else 11 if stream[i + 1] == 0x19 else None
             if ln is None:
                 raise AssertionError("reference decoder: unexpected command byte in a noise-free stream at %d" % i)
